@@ -262,6 +262,42 @@ def cli_part(ctx, only=None):
                        {'kind': 'cli', 'job': list(job)})
         elif not_c or ren or slow:
             ctx.nontrivial(('cli',) + tuple(map(str, job)))
+    # other platforms (the `windows` option is active on Windows only), and a custom group file whose name collides with a
+    # shipped group: the schedule comes from the file that was named
+    import cliprobe
+    base2 = Path(tempfile.mkdtemp(prefix='c13cli2-', dir=ctx.scratch))
+    try:
+        stub2 = cliprobe.stub_dir(base2)
+        (base2 / 'mine').mkdir()
+        for nm in ('all.json', 'delta.json', 'binary.json', 'opencl-120.json'):
+            (base2 / 'mine' / nm).write_text(json.dumps(custom))
+        extra = [(['--pass-group', 'all'], shipped()['all'], plat) for plat in ('darwin', 'cygwin', 'freebsd14')] + \
+                [(['--pass-group-file', str(base2 / 'mine' / nm)], custom, None) for nm in ('all.json', 'delta.json', 'binary.json', 'opencl-120.json')]
+        if only is None:
+            for opts, gdict, plat in extra:
+                rc, out, _ = cliprobe.run_cli(stub2, ['--list-passes'] + opts + ['t.sh', 'a.c'], base2, platform=plat)
+                ctx.count()
+                if 'INITIAL PASSES' not in out:
+                    continue
+                body = out[out.index('INITIAL PASSES'):]
+                got = {'first': [], 'main': [], 'last': []}
+                cur = None
+                for line in body.split('\n'):
+                    line = re.sub(r'^\d\d:\d\d:\d\d\s+\w+\s+', '', line.strip())
+                    if line in ('INITIAL PASSES', 'MAIN PASSES', 'CLEANUP PASSES'):
+                        cur = {'INITIAL PASSES': 'first', 'MAIN PASSES': 'main', 'CLEANUP PASSES': 'last'}[line]
+                    elif line and cur:
+                        got[cur].append(line)
+                want = spec(gdict, [], [], False, False)
+                if want[0] != 'ok' or got != want[1]:
+                    diff = next((c for c in CATS if got[c] != want[1][c]), None) if want[0] == 'ok' else None
+                    ctx.report('front-end-schedule-differs-from-documented-rule',
+                               f"cvise.py --list-passes {' '.join(opts)} (platform {plat or 'this one'}): {diff}: printed {got.get(diff)} expected {want[1].get(diff) if want[0] == 'ok' else want}"[:600],
+                               {'kind': 'cli', 'job': None, 'options': opts, 'platform': plat})
+                else:
+                    ctx.nontrivial(('cli2', str(opts), str(plat)))
+    finally:
+        shutil.rmtree(base2, ignore_errors=True)
     ctx.notes.setdefault('cli_runs', usable)
     if usable == 0:
         from vlib import ToolTrouble
@@ -271,7 +307,7 @@ def cli_part(ctx, only=None):
 def run(ctx):
     eager = eager_from_source()
     if ctx.replay and json.load(open(ctx.replay)).get('kind') == 'cli':
-        cli_part(ctx, json.load(open(ctx.replay))['job'])
+        cli_part(ctx, json.load(open(ctx.replay)).get('job'))
         print('replayed ->', 'fails' if ctx.violations else 'holds')
         return 1 if ctx.violations else 0
     if ctx.replay:
